@@ -111,6 +111,9 @@ def norm_tree(walkers, t):
     return walkers.ReprWalker().walk(t)      # positions omitted
 
 
+_TT = {}
+
+
 def bounded(run, tier):
     es5 = importlib.import_module('calmjs.parse.parsers.es5')
     walkers = importlib.import_module('calmjs.parse.walkers')
@@ -186,6 +189,13 @@ def bounded(run, tier):
     extra_tok = [[('ID', 'x'), ('EQ', '='), ('ID', 'a'), ('PLUSPLUS', '++'), ('PLUS', '+'), ('ID', 'b'), ('SEMI', ';')],
                  [('ID', 'f'), ('LPAREN', '('), ('ID', 'a'), ('COMMA', ','), ('ID', 'i'), ('MINUSMINUS', '--'), ('RPAREN', ')'), ('SEMI', ';')],
                  [('ID', 'a'), ('PLUSPLUS', '++'), ('SEMI', ';')], [('PLUSPLUS', '++'), ('ID', 'a'), ('SEMI', ';')]]
+    T = lambda text: [(_TT.get(x, 'ID' if x.isalpha() else x), x) for x in text.split()]
+    _TT.update({'if': 'IF', 'while': 'WHILE', 'for': 'FOR', 'with': 'WITH', 'else': 'ELSE', '(': 'LPAREN', ')': 'RPAREN', '{': 'LBRACE', '}': 'RBRACE',
+                ';': 'SEMI', '=': 'EQ', '++': 'PLUSPLUS', '--': 'MINUSMINUS', ',': 'COMMA', 'do': 'DO'})
+    # a prefix ++/-- on the line after a statement header, `else`, `do`, an operator or a block: the line break is neutral
+    prefix_ok = [T('if ( a ) ++ b ;'), T('while ( a ) -- b ;'), T('for ( ; ; ) ++ i ;'), T('with ( o ) ++ p ;'), T('if ( a ) b ; else ++ c ;'),
+                 T('x = ++ b ;'), T('{ } ++ i ;'), T('a ; -- b ;'), T('do ++ i ; while ( a ) ;'), T('f ( a , ++ b ) ;'), T('for ( k in o ) -- k ;')]
+    extra_tok += prefix_ok
     sentences = [t for _, t in corpus][::(1 if tier == 'thorough' else 2)] + extra_tok
     spurious = {}
     for toks in sentences:
@@ -194,8 +204,10 @@ def bounded(run, tier):
         if isinstance(ref, str):
             continue
         for i in range(1, len(toks)):
-            if toks[i - 1][0] in ('RETURN', 'BREAK', 'CONTINUE', 'THROW') or toks[i][0] in ('PLUSPLUS', 'MINUSMINUS'):
+            if toks[i - 1][0] in ('RETURN', 'BREAK', 'CONTINUE', 'THROW'):
                 continue
+            if toks[i][0] in ('PLUSPLUS', 'MINUSMINUS') and not (toks in prefix_ok and toks[i + 1][0] == 'ID' and toks[i - 1][0] != 'ID'):
+                continue          # could be a postfix operator: restricted production, checked above
             src = ' '.join(x for _, x in toks[:i]) + '\n' + ' '.join(x for _, x in toks[i:])
             n += 1
             got = parse(src)
